@@ -250,7 +250,17 @@ Inductive ctx_sub : Type :=
 | SeqCtx2 (cov : list N) (classes : list (list N)) (rules : list (list (list N * actions)))
 | SeqCtx3 (input : list (list N)) (acts : actions).
 
+(* chained contextual subtables (GSUB6).  A rule is
+   (((Backtrack, Input without its first element), Lookahead), Actions);
+   Backtrack is stored in reverse reading order, as in the font file. *)
+Definition chain_rule : Type := (list N * list N * list N * actions)%type.
+Inductive chain_sub : Type :=
+| Chain1 (cov : list N) (rules : list (list chain_rule))
+| Chain2 (cov : list N) (btc inc lac : list (list N)) (rules : list (list chain_rule))
+| Chain3 (bt input la : list (list N)) (acts : actions).
+
 Inductive subtable : Type :=
+| Chn (h : chain_sub)
 | Ctx (c : ctx_sub)
 | Gsub1_1 (cov : list N) (delta : N)
 | Gsub1_2 (cov : list N) (subst : list N)
@@ -873,6 +883,121 @@ Section Parser.
     subs <- seqctx_loop fuel [] [] [] ;;
     ret (mk_lookup ty flags subs).
 
+  (* ---- GSUB6 (readChainedSeqCtx) ---- *)
+  (* next := p.readItem(); nextType := next.typ;
+     if nextType == itemBar { nextType = p.peek().typ }; p.backlog = append(p.backlog, next) *)
+  Definition chain_peek : P (token * ityp) :=
+    nxt <- read ;;
+    ty <- (if ityp_eqb (ttyp nxt) TBar then (t2 <- peek ;; ret (ttyp t2)) else ret (ttyp nxt)) ;;
+    unread nxt ;;; ret (nxt, ty).
+
+  (* one class table: names and glyph lists in the order of definition *)
+  Definition ctable : Type := (list (list N) * list (list N))%type.
+  Definition def_class (fuel : nat) (st : ctable) : P ctable :=
+    d <- parse_class_def fuel ;;
+    if existsb (list_eqb (fst d)) (fst st) then fatal
+    else if existsb (fun g => existsb (N.eqb g) (concat (snd st))) (snd d) then fatal
+    else (optional TEOL ;;; ret (fst st ++ [fst d], snd st ++ [snd d])).
+
+  Fixpoint chain1_loop (fuel : nat) (data : list (N * chain_rule)) : P (list (N * chain_rule)) :=
+    match fuel with
+    | O => out_of_fuel
+    | S f =>
+        bt <- read_glyph_list fuel ;;
+        required TBar ;;;
+        inp <- read_glyph_list fuel ;;
+        required TBar ;;;
+        la <- read_glyph_list fuel ;;
+        required TArrow ;;;
+        acts <- read_nested fuel [] ;;
+        match inp with
+        | [] => read ;;; fatal
+        | key :: rest =>
+            b <- optional TComma ;;
+            if b then (optional TEOL ;;; chain1_loop f (data ++ [(key, (rev bt, rest, la, acts))]))
+            else ret (data ++ [(key, (rev bt, rest, la, acts))])
+        end
+    end.
+
+  Fixpoint chain2_loop (fuel : nat) (btn inn lan : list (list N)) (data : list (N * chain_rule))
+    : P (list (N * chain_rule)) :=
+    match fuel with
+    | O => out_of_fuel
+    | S f =>
+        bnm <- read_class_names fuel [] ;;
+        required TBar ;;;
+        inm <- read_class_names fuel [] ;;
+        required TBar ;;;
+        lnm <- read_class_names fuel [] ;;
+        required TArrow ;;;
+        acts <- read_nested fuel [] ;;
+        if is_nil inm then fatal
+        else match classes_of inn inm, classes_of btn bnm, classes_of lan lnm with
+             | Some (c :: rest), Some bc, Some lc =>
+                 b <- optional TComma ;;
+                 if b then (optional TEOL ;;; chain2_loop f btn inn lan (data ++ [(c, (rev bc, rest, lc, acts))]))
+                 else ret (data ++ [(c, (rev bc, rest, lc, acts))])
+             | _, _, _ => fatal
+             end
+    end.
+
+  (* format 3: sets up to "|" (possibly none), sets up to "|" (at least one),
+     sets up to "->" (possibly none) *)
+  Fixpoint sets_until (fuel : nat) (stop : ityp) (acc : list (list N)) : P (list (list N)) :=
+    match fuel with
+    | O => out_of_fuel
+    | S f =>
+        b <- optional stop ;;
+        if b then ret acc else (gs <- read_glyph_set fuel ;; sets_until f stop (acc ++ [gs]))
+    end.
+  Fixpoint sets_then (fuel : nat) (stop : ityp) (acc : list (list N)) : P (list (list N)) :=
+    match fuel with
+    | O => out_of_fuel
+    | S f =>
+        gs <- read_glyph_set fuel ;;
+        b <- optional stop ;;
+        if b then ret (acc ++ [gs]) else sets_then f stop (acc ++ [gs])
+    end.
+
+  Fixpoint chainctx_loop (fuel : nat) (ic bc lc : ctable) (subs : list subtable) : P (list subtable) :=
+    match fuel with
+    | O => out_of_fuel
+    | S f =>
+        pk <- chain_peek ;;
+        let nxt := fst pk in
+        let ty := snd pk in
+        if is_ident nxt k_inputclass then (ic' <- def_class fuel ic ;; chainctx_loop f ic' bc lc subs)
+        else if is_ident nxt k_backtrackclass then (bc' <- def_class fuel bc ;; chainctx_loop f ic bc' lc subs)
+        else if is_ident nxt k_lookaheadclass then (lc' <- def_class fuel lc ;; chainctx_loop f ic bc lc' subs)
+        else
+          r <- (if ityp_eqb ty TSlash then
+                  required TSlash ;;;
+                  first <- read_glyph_list fuel ;;
+                  required TSlash ;;;
+                  data <- chain2_loop fuel (fst bc) (fst ic) (fst lc) [] ;;
+                  ret (Chn (Chain2 (uniq (isort first)) (snd bc) (snd ic) (snd lc)
+                              (map (fun c => vals_of (N.of_nat c) data) (seq 0 (S (length (fst ic)))))),
+                       (@nil (list N), @nil (list N)), (@nil (list N), @nil (list N)), (@nil (list N), @nil (list N)))
+                else if ityp_eqb ty TLBr then
+                  bt <- sets_until fuel TBar [] ;;
+                  inp <- sets_then fuel TBar [] ;;
+                  la <- sets_until fuel TArrow [] ;;
+                  acts <- read_nested fuel [] ;;
+                  ret (Chn (Chain3 (rev bt) inp la acts), ic, bc, lc)
+                else
+                  data <- chain1_loop fuel [] ;;
+                  let cov := build_cov data in
+                  ret (Chn (Chain1 cov (map (fun g => vals_of g data) cov)), ic, bc, lc)) ;;
+          let '(sub, ic', bc', lc') := r in
+          b <- optional TOr ;;
+          if b then (optional TEOL ;;; chainctx_loop f ic' bc' lc' (subs ++ [sub]))
+          else ret (subs ++ [sub])
+    end.
+  Definition read_chainctx (fuel : nat) (ty : N) : P lookup :=
+    flags <- lookup_header fuel ;;
+    subs <- chainctx_loop fuel ([], []) ([], []) ([], []) [] ;;
+    ret (mk_lookup ty flags subs).
+
   (* ---- parse() ---- *)
   Definition unmodelled {A} : P A := fun _ => PUnmodelled.
   Fixpoint parse_loop (fuel : nat) (acc : list lookup) : P (list lookup) :=
@@ -890,7 +1015,7 @@ Section Parser.
             else if list_eqb (tval t) k_GSUB3 then (l <- read_gsub3 fuel ;; parse_loop f (acc ++ [l]))
             else if list_eqb (tval t) k_GSUB4 then (l <- read_gsub4 fuel ;; parse_loop f (acc ++ [l]))
             else if list_eqb (tval t) k_GSUB5 then (l <- read_seqctx fuel 5 ;; parse_loop f (acc ++ [l]))
-            else if list_eqb (tval t) k_GSUB6 then unmodelled
+            else if list_eqb (tval t) k_GSUB6 then (l <- read_chainctx fuel 6 ;; parse_loop f (acc ++ [l]))
             else if list_eqb (tval t) k_GPOS1 then (l <- read_gpos1 fuel ;; parse_loop f (acc ++ [l]))
             else if list_eqb (tval t) k_GPOS2 then unmodelled
             else if list_eqb (tval t) k_GPOS3 then unmodelled
@@ -1104,8 +1229,42 @@ Section Explain.
     | SeqCtx3 input acts => join_sets input ++ k_arrow ++ M_explain_nested acts
     end.
 
+  (* explainChainedSeqContext1 *)
+  Definition k_bar : list N := [32; 124; 32].      (* " | " *)
+  Fixpoint explain_chain1 (mm : list (N * chain_rule)) (first : bool) : list N :=
+    match mm with
+    | [] => []
+    | (g, (bt, inp, la, acts)) :: r =>
+        (if first then [32] else k_comma) ++ write_glyph_list (rev bt) ++ k_bar ++ write_glyph_list (g :: inp)
+          ++ k_bar ++ write_glyph_list la ++ k_arrow ++ M_explain_nested acts ++ explain_chain1 r false
+    end.
+  (* the rules of explainChainedSeqContext2 *)
+  Fixpoint explain_chain2 (mm : list (N * chain_rule)) (first : bool) : list N :=
+    match mm with
+    | [] => []
+    | (c, (bt, inp, la, acts)) :: r =>
+        (if first then [] else [44]) ++ write_class_list (rev bt) ++ k_bar ++ write_class_list (c :: inp)
+          ++ k_bar ++ write_class_list la ++ k_arrow ++ M_explain_nested acts ++ explain_chain2 r false
+    end.
+  (* explainChainedSeqContext3 *)
+  Definition sp_sets (sets : list (list N)) : list N :=
+    concat (map (fun s => 32 :: write_glyph_set s) sets).
+
+  Definition explain_chain (h : chain_sub) : list N :=
+    match h with
+    | Chain1 cov rules => explain_chain1 (flat_rules (combine cov rules)) true
+    | Chain2 cov btc inc lac rules =>
+        define_classes k_backtrackclass btc 1 ++ define_classes k_inputclass inc 1
+          ++ define_classes k_lookaheadclass lac 1 ++ [47] ++ write_glyph_list cov ++ [47]
+          ++ explain_chain2 (flat_rules (index_from 0 rules)) true
+    | Chain3 bt input la acts =>
+        join_sets (rev bt) ++ [32; 124] ++ sp_sets input ++ [32; 124] ++ sp_sets la ++ k_arrow
+          ++ M_explain_nested acts
+    end.
+
   Definition explain_subtable (s : subtable) : list N :=
     match s with
+    | Chn h => explain_chain h
     | Ctx c => explain_ctx c
     | Gsub1_1 cov delta =>
         let mm := stable_sort (map (fun k => (k, (k + delta) mod 65536)) cov) in
